@@ -174,20 +174,14 @@ Print Assumptions C14_out_of_scope_refuted.
    If the code changes so that a tie no longer holds, this file no longer checks. *)
 Require Verif.Tie.Alpine.
 Require Verif.Tie.Loops.Alpine.
-Definition C14_tie_alpine_compareInt := Verif.Tie.Alpine.tie_alpine_compareInt.
-Print Assumptions C14_tie_alpine_compareInt.
-Definition C14_tie_alpine_compareLetters := Verif.Tie.Alpine.tie_alpine_compareLetters.
-Print Assumptions C14_tie_alpine_compareLetters.
-Definition C14_tie_loops_alpine_hasLeadingZero := Verif.Tie.Loops.Alpine.tie_loops_alpine_hasLeadingZero.
-Print Assumptions C14_tie_loops_alpine_hasLeadingZero.
-Definition C14_tie_hasLeadingZero_total_model := Verif.Tie.Loops.Alpine.hasLeadingZero_total_model.
-Print Assumptions C14_tie_hasLeadingZero_total_model.
-Definition C14_tie_loops_alpine_compareNumericArraysNumeric := Verif.Tie.Loops.Alpine.tie_loops_alpine_compareNumericArraysNumeric.
-Print Assumptions C14_tie_loops_alpine_compareNumericArraysNumeric.
-Definition C14_tie_compareNumericArraysNumeric_total_model := Verif.Tie.Loops.Alpine.compareNumericArraysNumeric_total_model.
-Print Assumptions C14_tie_compareNumericArraysNumeric_total_model.
-Definition C14_tie_loops_alpine_compareSuffixArrays := Verif.Tie.Loops.Alpine.tie_loops_alpine_compareSuffixArrays.
-Print Assumptions C14_tie_loops_alpine_compareSuffixArrays.
-Definition C14_tie_compareSuffixArrays_total_model := Verif.Tie.Loops.Alpine.compareSuffixArrays_total_model.
-Print Assumptions C14_tie_compareSuffixArrays_total_model.
+Definition C14_tie_alpine_compareInt := @Verif.Tie.Alpine.tie_alpine_compareInt.
+Definition C14_tie_alpine_compareLetters := @Verif.Tie.Alpine.tie_alpine_compareLetters.
+Definition C14_tie_loops_alpine_hasLeadingZero := @Verif.Tie.Loops.Alpine.tie_loops_alpine_hasLeadingZero.
+Definition C14_tie_hasLeadingZero_total_model := @Verif.Tie.Loops.Alpine.hasLeadingZero_total_model.
+Definition C14_tie_loops_alpine_compareNumericArraysNumeric := @Verif.Tie.Loops.Alpine.tie_loops_alpine_compareNumericArraysNumeric.
+Definition C14_tie_compareNumericArraysNumeric_total_model := @Verif.Tie.Loops.Alpine.compareNumericArraysNumeric_total_model.
+Definition C14_tie_loops_alpine_compareSuffixArrays := @Verif.Tie.Loops.Alpine.tie_loops_alpine_compareSuffixArrays.
+Definition C14_tie_compareSuffixArrays_total_model := @Verif.Tie.Loops.Alpine.compareSuffixArrays_total_model.
+Definition C14_ties_all := (C14_tie_alpine_compareInt, (C14_tie_alpine_compareLetters, (C14_tie_compareNumericArraysNumeric_total_model, (C14_tie_compareSuffixArrays_total_model, (C14_tie_hasLeadingZero_total_model, (C14_tie_loops_alpine_compareNumericArraysNumeric, (C14_tie_loops_alpine_compareSuffixArrays, C14_tie_loops_alpine_hasLeadingZero))))))).
+Print Assumptions C14_ties_all.
 (* ====== ties to the source: END ====== *)
